@@ -269,6 +269,13 @@ impl<'a, 'tcx> Cx<'a, 'tcx> {
         ProjectionElem::Deref => proj.push(J::s("*")),
         ProjectionElem::Field(f, _) => {
           let mut name = J::Null;
+          let mut boxy = false;
+          if let TyKind::Adt(adt, _) = pty.ty.kind() {
+            let p = tcx.def_path_str(adt.did());
+            if pty.ty.is_box() || p.ends_with("ptr::Unique") || p.ends_with("ptr::NonNull") {
+              boxy = true;
+            }
+          }
           if let TyKind::Adt(adt, _) = pty.ty.kind() {
             let vi = pty.variant_index.unwrap_or(rustc_abi::FIRST_VARIANT);
             if adt.is_enum() || adt.is_struct() || adt.is_union() {
@@ -277,7 +284,11 @@ impl<'a, 'tcx> Cx<'a, 'tcx> {
               }
             }
           }
-          proj.push(J::Obj(vec![("f", J::Num(f.as_usize() as i64)), ("n", name)]));
+          if boxy {
+            proj.push(J::Obj(vec![("f", J::Num(f.as_usize() as i64)), ("n", name), ("bx", J::Bool(true))]));
+          } else {
+            proj.push(J::Obj(vec![("f", J::Num(f.as_usize() as i64)), ("n", name)]));
+          }
         }
         ProjectionElem::Downcast(name, vi) => {
           let n = match name {
